@@ -287,6 +287,11 @@ def rule_f(ctx):
         if st.id in seen and m not in ck:
           problems.append(f'a sub-space can get its id (line {st.lineno}) without the conditional key: it then '
                           f'shares the id of its parent choice')
+    # the key is built unconditionally: not inside a conditional (sub-)expression
+    for n in ast.walk(f.node):
+      if isinstance(n, (ast.IfExp, ast.BoolOp)) and any(
+          isinstance(x, ast.Call) and (A.call_name(x) or '').endswith('ConditionalKey') for x in ast.walk(n)):
+        problems.append(f'the conditional key is built only under `{A.unparse(n.test if isinstance(n, ast.IfExp) else n, 60)}`')
     for k in ck:
       for cl in k.calls():
         if (A.call_name(cl) or '').endswith('ConditionalKey'):
